@@ -338,6 +338,7 @@ class CParser:
             if decls[0]["decl"] is None:
                 if (
                     len(spec["type"]) < 2
+                    or not isinstance(spec["type"][-1], c_ast.IdentifierType)
                     or len(spec["type"][-1].names) != 1
                     or not self._is_type_in_scope(spec["type"][-1].names[0])
                 ):
@@ -368,7 +369,9 @@ class CParser:
                 decls_0_tail = cast(Any, decls[0]["decl"])
                 while not isinstance(decls_0_tail, c_ast.TypeDecl):
                     decls_0_tail = decls_0_tail.type
-                if decls_0_tail.declname is None:
+                if decls_0_tail.declname is None and isinstance(
+                    spec["type"][-1], c_ast.IdentifierType
+                ):
                     decls_0_tail.declname = spec["type"][-1].names[0]
                     del spec["type"][-1]
 
@@ -1139,6 +1142,9 @@ class CParser:
 
         if len(spec["type"]) == 1:
             node = spec["type"][0]
+            if isinstance(node, c_ast.Typename):
+                # _Atomic(type-name) without a declarator declares nothing.
+                self._parse_error("Invalid declaration", node.coord)
             if isinstance(node, c_ast.Node):
                 decl_type = node
             else:
@@ -1436,6 +1442,7 @@ class CParser:
     ) -> c_ast.Node:
         if (
             len(spec["type"]) > 1
+            and isinstance(spec["type"][-1], c_ast.IdentifierType)
             and len(spec["type"][-1].names) == 1
             and self._is_type_in_scope(spec["type"][-1].names[0])
         ):
